@@ -637,7 +637,7 @@ class Tr:
         beta = self.w.lean_ret(self.fn) if has_ret else "Empty"
         out = f"{pad}match PyRt.forEach (β := {beta}) {it} {sigma} (fun {x} {self.tuple_pat(carried)} =>\n{body}{pad}  ) with\n"
         if has_ret:
-            out += f"{pad}| .ret v => v\n"
+            out += f"{pad}| .ret v => .ret v\n" if saved is not None else f"{pad}| .ret v => v\n"
         else:
             out += f"{pad}| .ret v => nomatch v\n"
         out += f"{pad}| .next {self.tuple_pat(carried)} =>\n{after}"
